@@ -26,6 +26,10 @@ CRAFT = [
     b'<Lexicon id="a"version="1">',
     b'<Lexicon id=a version="1">',
     b'',
+    # white space written as character references is kept (only literal white space is normalised)
+    b'<Lexicon id="a" version="1" label="Col A&#9;Col B&#10;x&#13;y&#xA;z&#x9;&#xD;&#13;&#10;">',
+    b"<Lexicon id='a&#9;b' version='1&#10;2' label='lit\ttab&#9;ref\r\nlit&#13;&#10;ref &amp;#9; &#32;'>",
+    b'<LexiconExtension id="x" version="1"><Extends id="b&#10;c" version="2&#9;"/>',
 ]
 
 
@@ -47,7 +51,7 @@ def gen_jobs(rng, n):
             data = data + b'\n' + rng.choice(CRAFT) + b'\n' + rng.choice(CRAFT)
         # keep the cases small: everything after the first 6000 bytes is cut (scan works on raw bytes)
         jobs.append({'bytes': list(data[:6000])})
-    for c in rng.sample(CRAFT, 6):
+    for c in CRAFT:
         jobs.append({'bytes': list(b'<?xml version="1.0" encoding="UTF-8"?>\n' + c + b'\n' + rng.choice(CRAFT))})
     return jobs
 
